@@ -211,6 +211,9 @@ pub enum Scn {
     /// two readers fill the cache concurrently, then the (again exclusive) owner mutates the same
     /// node through &mut and drops it: the cache filled under &self is consumed exactly once
     OwnedReadThenMutate,
+    /// a reader keeps the reference to a child it looked up while another thread clones the
+    /// parent and drops the clone: the cache the reference points into stays with the parent
+    OwnedHoldChildVsCloneDrop,
 }
 pub const SCENARIOS: &[Scn] = &[
     Scn::LazyStr2,
@@ -222,6 +225,7 @@ pub const SCENARIOS: &[Scn] = &[
     Scn::OwnedCloneRead,
     Scn::OwnedReaderVsCloneDrop,
     Scn::OwnedReadThenMutate,
+    Scn::OwnedHoldChildVsCloneDrop,
 ];
 
 const ESC: &str = "\"a\\n\\u00e9\\\"z\"";
@@ -371,6 +375,39 @@ fn body(scn: Scn) {
             }));
             a.join().unwrap();
             b.join().unwrap();
+            subject(move || drop(v));
+        }
+        Scn::OwnedHoldChildVsCloneDrop => {
+            let v = Arc::new(subject(owned_raw));
+            let v1 = v.clone();
+            let v2 = v.clone();
+            let a = spawn(Box::new(move || {
+                let ok = subject(|| {
+                    let child = v1.get(0usize);
+                    // a second access to the parent (a scheduling point) while the reference is held
+                    let n = v1.as_array().map(|a| a.len());
+                    let first = child.and_then(|c| c.as_str()) == Some("x\ty");
+                    let again = child.and_then(|c| c.as_str()) == Some("x\ty");
+                    n == Some(3) && first && again
+                });
+                assert!(ok, "child reference reads wrong");
+                subject(move || drop(v1));
+            }));
+            let b = spawn(Box::new(move || {
+                let c = subject(|| (*v2).clone());
+                subject(move || drop(c));
+                subject(move || drop(v2));
+            }));
+            a.join().unwrap();
+            b.join().unwrap();
+            // and sequentially: look up, clone, drop the clone, read through the old reference
+            let ok = subject(|| {
+                let child = v.get(2usize);
+                let c = (*v).clone();
+                drop(c);
+                child.map(|c| sonic_rs::to_string(c).unwrap() == "{\"k\": [true]}") == Some(true)
+            });
+            assert!(ok, "child reference reads wrong after clone + drop of the clone");
             subject(move || drop(v));
         }
         Scn::OwnedReadThenMutate => {
